@@ -831,3 +831,138 @@ func recordBytesOrigin(p *Program, f *ssa.Function, v ssa.Value, enc, wr *ssa.Fu
 	}
 	return true
 }
+
+// ruleSlotLoopExits: a loop over the slots of a bucket goes on to the next bucket of the chain only after it has looked at
+// every used slot: an exit of the slot loop from which the loop can be entered again (the walk continues with the next
+// bucket) is the loop bound or the empty-slot test. Leaving the slot loop on a mere mismatch (`break` for `continue`)
+// hides the slots behind the first colliding one: the key is not found, not deleted, or inserted twice.
+func ruleSlotLoopExits(r *Run, p *Program, rule string) {
+	n := 0
+	for _, f := range p.ModuleFuncs("") {
+		if f.Pkg != p.MainS {
+			continue
+		}
+		seenHead := map[*ssa.BasicBlock]bool{}
+		instrsOf(f, func(in ssa.Instruction) {
+			var x, idx ssa.Value
+			switch a := in.(type) {
+			case *ssa.IndexAddr:
+				x, idx = a.X, a.Index
+			case *ssa.Index:
+				x, idx = a.X, a.Index
+			default:
+				return
+			}
+			if fieldName(x) != "pogreb.bucket.slots" && !strings.HasSuffix(fieldNameOfLoad(x), "bucket.slots") {
+				return
+			}
+			ph, ok := strip(idx).(*ssa.Phi)
+			if !ok {
+				return
+			}
+			h := ph.Block()
+			if seenHead[h] {
+				return
+			}
+			seenHead[h] = true
+			// natural loop of h
+			loop := map[*ssa.BasicBlock]bool{h: true}
+			var stack []*ssa.BasicBlock
+			for _, pr := range h.Preds {
+				if h.Dominates(pr) {
+					stack = append(stack, pr)
+				}
+			}
+			if len(stack) == 0 {
+				return
+			}
+			for len(stack) > 0 {
+				b := stack[len(stack)-1]
+				stack = stack[:len(stack)-1]
+				if loop[b] {
+					continue
+				}
+				loop[b] = true
+				stack = append(stack, b.Preds...)
+			}
+			n++
+			r.fn(funcKey(f))
+			bad := false
+			for b := range loop {
+				for k, s := range b.Succs {
+					if loop[s] {
+						continue
+					}
+					if s != h && !blockReaches(s, h) {
+						continue // leaves for good (a return, or the handling of the slot that was found)
+					}
+					c := edgeCond(b, k)
+					if c == nil {
+						continue
+					}
+					if isLoopBound(c) {
+						continue
+					}
+					if eq, ok := c.holdsEq(); ok && eq && c.X != nil && c.Y != nil {
+						isOff := func(v ssa.Value) bool { return strings.HasSuffix(fieldNameOfLoad(v), "slot.offset") }
+						isZero := func(v ssa.Value) bool { k, ok := constInt(strip(v)); return ok && k == 0 }
+						if (isOff(c.X) && isZero(c.Y)) || (isOff(c.Y) && isZero(c.X)) {
+							continue
+						}
+					}
+					bad = true
+					r.bad(rule, funcKey(f)+":slot-loop", p.Pos(c.If.Cond.Pos()), "the loop over a bucket's slots is left ("+c.String(p)+") and the walk goes on with the next bucket although used slots of this bucket have not been looked at: a key stored behind a slot with a colliding hash is not found / not deleted / inserted a second time")
+				}
+			}
+			// a loop that hands slots to other code (the key callback, a slot writer) stops at the first empty slot: used slots
+			// are kept compact at the front of a bucket, and an empty slot must never be matched, copied or re-inserted
+			usesSlots := false
+			emptyStops := false
+			for b := range loop {
+				for _, bin := range b.Instrs {
+					if c, ok := bin.(*ssa.Call); ok {
+						if _, isBuiltin := c.Call.Value.(*ssa.Builtin); !isBuiltin {
+							// the key callback (a function value) or a module function such as slotWriter.insert
+							if g := c.Call.StaticCallee(); (g == nil && !c.Call.IsInvoke()) || (g != nil && inModule(g)) {
+								usesSlots = true
+							}
+						}
+					}
+				}
+				for k, s := range b.Succs {
+					c := edgeCond(b, k)
+					if c == nil || c.X == nil || c.Y == nil {
+						continue
+					}
+					if eq, ok := c.holdsEq(); ok && eq {
+						isOff := func(v ssa.Value) bool { return strings.HasSuffix(fieldNameOfLoad(v), "slot.offset") }
+						isZero := func(v ssa.Value) bool { k, ok := constInt(strip(v)); return ok && k == 0 }
+						if ((isOff(c.X) && isZero(c.Y)) || (isOff(c.Y) && isZero(c.X))) && !loop[s] {
+							emptyStops = true
+						}
+					}
+				}
+			}
+			if usesSlots && !emptyStops {
+				bad = true
+				r.bad(rule, funcKey(f)+":slot-loop", p.Pos(in.Pos()), "the loop over a bucket's slots does not stop at the first empty slot (offset == 0): empty slots are handed to the key comparison or copied into the rebuilt chain, where they end up between used slots and cut off everything stored behind them")
+			}
+			if !bad {
+				r.ok(rule, funcKey(f)+":slot-loop", p.Pos(in.Pos()), "the slot loop goes on to the next bucket only at its bound or at the first empty slot, where it stops", true)
+			}
+		})
+	}
+	r.universe(rule, n, 1) // one shared helper may hold the only slot loop that hands slots on
+}
+
+// fieldNameOfLoad: "Type.field" when v is (a load of) a field.
+func fieldNameOfLoad(v ssa.Value) string {
+	v = strip(v)
+	if fn := fieldName(v); fn != "" {
+		return fn
+	}
+	if ld, ok := v.(*ssa.UnOp); ok && ld.Op == token.MUL {
+		return fieldName(ld.X)
+	}
+	return ""
+}
